@@ -491,7 +491,8 @@ def group_parents(t, parent=None, out=None):
 # structured generator: builds a tree and its text together (independent of any parser)
 
 CHARS = [b'a', b'b', b'c', b'A', b'B', b'_', b' ', b'1', b'-', 'é'.encode(), 'É'.encode(), '中'.encode(), '\U0001f600'.encode(), b'x']
-BRKS = [b'[ab]', b'[^ab]', b'[a-c]', b'[^a-c_]', b'[[:alpha:]]', b'[[:digit:][:space:]]', b'[^[:alnum:]]', b'[]a]', b'[^]a]', b'[a-]',
+METALITS = [b'(', b')', b'.', b'*', b'+', b'?', b'[', b'|', b'^', b'$', b'{', b'\\', b'(', b')']
+BRKS = [b'[(a]', b'[^)]', b'[ab]', b'[^ab]', b'[a-c]', b'[^a-c_]', b'[[:alpha:]]', b'[[:digit:][:space:]]', b'[^[:alnum:]]', b'[]a]', b'[^]a]', b'[a-]',
         b'[A-Z]', b'[[:upper:]b]', '[à-ÿ]'.encode(), '[^一-鿿]'.encode(), b'[[:word:]]', b'[[:punct:]]', b'[.*]', b'[a\\]',
         b'[b-a]', b'[Z-a]', b'[[:xdigit:]-]', b'[[:lower:]]']
 
@@ -516,7 +517,8 @@ class Gen:
 
     def lit(self):
         n = self.rng.choice([1, 1, 1, 2, 3])
-        return b''.join(self.rng.choice(self.chars) for _ in range(n))
+        # now and then an escaped metacharacter (rendered with a backslash): \( must not count as a group
+        return b''.join(self.rng.choice(METALITS) if self.rng.below(7) == 0 else self.rng.choice(self.chars) for _ in range(n))
 
     def atom(self):
         r = self.rng.below(20)
@@ -718,7 +720,7 @@ def wrap_set(trees):
 def gen_line(rng, pats_text, long_ok=False):
     """a line that has a fair chance to match: pieces of the pattern's literals and alphabet"""
     pool = [b'a', b'b', b'c', b'ab', b'A', b'B', b'_', b' ', b'1', b'-', 'é'.encode(), 'É'.encode(), '中'.encode(),
-            '\U0001f600'.encode(), b'x', b'aa', b'\t', b'.', b']']
+            '\U0001f600'.encode(), b'x', b'aa', b'\t', b'.', b']', b'(', b')', b'*', b'(a)']
     n = rng.choice([0, 1, 2, 3, 4, 5, 6, 8, 12])
     s = b''.join(rng.choice(pool) for _ in range(n))
     if rng.below(4):
